@@ -119,6 +119,7 @@ def cases(rng, mode):
         add((nm + "-dim", lambda x, f=f: (f(x, dim=0), f(x, dim=1, keepdim=True), f(x, dim=(0, 1)), f(x, dim=-1)), (A(2, 4),)))
     add(("sum-special", lambda x: torch.isnan(x.sum()), (a23,)))
     add(("sum-bool", lambda m: (m.sum(), m.sum(dim=0), m.any(), m.all(), m.any(dim=1), m.all(dim=0, keepdim=True)), (m23,)))
+    add(("count_nonzero", lambda x, m: (torch.count_nonzero(x * m), torch.count_nonzero(m, dim=0), torch.count_nonzero(x * 0)), (a23, m23)))
     add(("prod", lambda x: x.prod(dim=1), (A(2, 3),)))
     add(("cumsum", lambda x: x.cumsum(dim=1), (A(2, 3),)))
     # variance: exact inputs only (torch's float kernel is not a plain two-pass fold; the claims use var/std in the real theory only)
